@@ -189,4 +189,14 @@ def clifDigest (p : Bytes) (helpers : Nat → Bool) : String :=
   | .error .err => "compile-err"
   | .error .panic => "panic"
 
+/-- the `clifirsem=` field appended to the model's line of an engine case: the digest of the translator model's IR for the
+    (patched) program and the registered helper ids -/
+def clifIrField (toks : List String) : String :=
+  match parseExec? toks with
+  | some c =>
+    if c.engines || (look (kvOf toks) "anyprog").isSome then
+      " | clifirsem=" ++ clifDigest (applyPatches c) (fun k => c.helpers.any (·.1 == k))
+    else ""
+  | none => ""
+
 end Rbpf.Drive
